@@ -4,6 +4,8 @@
    - each wire's process is in exactly one place (initialising, holding a packet, waiting), a waiting
      process with a non-empty store has a put callback pending in the current instant;
    - hand-off events are due in the current instant; a held data packet leaves at most d later;
+   - the data wire keeps one entry instant per queued packet, all in the past (the store holds
+     (entry instant, packet) pairs since the Wire repair 965d42d; the defaults in wd_get are unreachable);
    - a queued ACK created at ct is delivered by ct + d (ACK packets are fresh objects);
    - every armed timer has exactly one kernel event (its Initialize or its Timeout);
    - ACK numbers and last_ack are multiples of MSS (so the segment at last_ack is in flight). *)
@@ -455,7 +457,9 @@ Record LInvW (st : lstate) : Prop := {
   w_ent : Forall (fun a => entry_w (l_now st) (ae_time a) (ae_ev a)) (l_agenda st);
   w_D : WD (l_agenda st) (l_wd st);
   w_A : WA (l_now st) (l_agenda st) (l_wa st);
-  w_st : Wst (l_now st) (l_wd st)
+  w_st : Wst (l_now st) (l_wd st);
+  (* one entry instant per queued packet: the defaults of hd / tl in wd_get are never used *)
+  w_len : length (wd_stamps (l_wd st)) = length (wd_items (l_wd st))
 }.
 
 Lemma pkt_ok_mono now now' m : (now <= now')%Q -> pkt_ok now m -> pkt_ok now' m.
@@ -765,6 +769,17 @@ Proof.
   inversion B; subst. split; assumption.
 Qed.
 
+Lemma wlen_app w kp t : length (wd_stamps w) = length (wd_items w) -> length (wd_stamps (wd_app w kp t)) = length (wd_items (wd_app w kp t)).
+Proof. intros H. unfold wd_app. cbn [wd_stamps wd_items]. rewrite !app_length, map_length, H. reflexivity. Qed.
+
+Lemma wlen_get tau w : length (wd_stamps w) = length (wd_items w) ->
+  length (wd_stamps (snd (getD_eff tau w))) = length (wd_items (snd (getD_eff tau w))) /\
+  (wd_items w <> [] -> wd_stamps w <> []).
+Proof.
+  intros H. unfold getD_eff. destruct (wd_items w) as [|x r]; cbn [snd wd_stamps wd_items]; [split; [exact H|intros C; contradiction]|].
+  destruct (wd_stamps w) as [|t0 l0]; cbn [length tl] in *; [discriminate|]. split; [lia|discriminate].
+Qed.
+
 (* THE TIMING / CONTROL INVARIANT IS PRESERVED by every agenda step *)
 Lemma LInvW_step st a rest st' :
   LInvA lc st None -> LInvW lc st -> l_agenda st = a :: rest -> Tr lc st a rest st' -> LInvW lc st'.
@@ -773,7 +788,7 @@ Proof.
   assert (Hn : (l_now st <= ae_time a)%Q) by (inversion Tf; assumption).
   assert (Hrest : forall b, In b rest -> (ae_time a <= ae_time b)%Q) by (intros b Hb; eapply asorted_head; eauto).
   assert (Hall : forall b, In b (a :: rest) -> (ae_time a <= ae_time b)%Q) by (intros b [<-|Hb]; [apply Qle_refl|auto]).
-  destruct W as [W0 Wp We WDs WAs Wst0]. rewrite E in We, WDs, WAs.
+  destruct W as [W0 Wp We WDs WAs Wst0 Wlen0]. rewrite E in We, WDs, WAs.
   assert (H0 : (0 <= ae_time a)%Q) by lra.
   assert (WstT : Wst (ae_time a) (l_wd st)) by exact (Wst_mono _ _ _ Hn Wst0).
   assert (Pk : pkt_ok (ae_time a) (l_pkt st)) by exact (pkt_ok_mono _ _ _ Hn Wp).
@@ -816,6 +831,7 @@ Proof.
         -- rewrite R5. discriminate.
         -- intros x c Hx Hc. rewrite app_nil_r in Hx. rewrite (sender_news_noack _ _ _ _ _ _ _ _ _ x Ho Hx) in Hc. discriminate.
     + rewrite Hwd. apply Wst_app. exact WstT.
+    + rewrite Hwd. apply wlen_app. exact Wlen0.
   - (* Timer Initialize of an armed timer *)
     destruct Hk as [k1 k2 k3 k4 k5 k6 k7]. unfold popped in *; lproj.
     constructor; rewrite ?k1, ?k4, ?Hwd, ?Hwa; auto.
@@ -844,6 +860,7 @@ Proof.
       * intros x c Hx Hc. exfalso. unfold getD_eff in Hx. destruct (wd_items (l_wd st)); cbn [fst] in Hx; [destruct Hx|].
         destruct Hx as [<-|[]]. discriminate.
     + apply Wst_get; assumption.
+    + apply wlen_get. exact Wlen0.
   - (* the ACK wire asks its store *)
     destruct Hk as [k1 k2 k3 k4 k5 k6 k7]. unfold popped in *; lproj.
     constructor; rewrite ?k1, ?k4, ?Hwd, ?Hwa; auto.
@@ -896,6 +913,7 @@ Proof.
         -- intros x [<-|Hx]; [reflexivity|]. unfold getD_eff in Hx. destruct (wd_items (l_wd st)); cbn [fst] in Hx; [destruct Hx|].
            destruct Hx as [<-|[]]. reflexivity.
     + rewrite Hwd. apply Wst_get; assumption.
+    + rewrite Hwd. apply wlen_get. exact Wlen0.
 Qed.
 End Wstep.
 
@@ -909,6 +927,7 @@ Proof.
   - constructor; cbn; auto; try (intros _ H; contradiction);
       try (intros a c [<-|[<-|[<-|[]]]]; discriminate).
   - split; [apply Qle_refl|constructor].
+  - reflexivity.
 Qed.
 
 Lemma reach_W lc cw ss rtt0 orc st :
